@@ -1116,7 +1116,7 @@ pub fn purity(args: &Args) -> Report {
     let thorough = args.thorough();
     let rep = Report::new(
         "purity",
-        "differential: the same searches on one searcher in shuffled orders, on clones, and from 8 threads sharing the searcher and its clones concurrently".into(),
+        "differential: the same searches on one searcher in shuffled orders, on clones, and from 8 threads sharing the searcher and its clones concurrently; stream searches of two different searchers one after the other on one thread vs each on a fresh thread (pattern lengths 1..72000 around the 64 KiB default buffer, and 1..18 with spare capacities 1, 2, 8 through hook H2)".into(),
         "case = one search (find / find_iter / overlapping / stream) repeated under a different history or thread; must equal the first sequential result".into(),
     );
     // relocation: a result is a function of the haystack bytes, not of where they lie in memory
@@ -1307,6 +1307,59 @@ pub fn purity(args: &Args) -> Report {
                 }
             }
         }
+    }
+    // stream searches of different searchers one after the other on one thread: state kept per
+    // thread (a recycled roll buffer, a remembered capacity) must not leak from one search into the
+    // next.  Every (first, second) pair runs on a thread of its own; the second result must equal
+    // the one the same searcher gives on a fresh thread.  Pattern lengths around the default
+    // buffer capacity (64 KiB) and around 8 x an earlier minimum; with the spare-capacity hook
+    // (H2) also tiny buffers whose lengths differ by 0, 1, 2 bytes.
+    {
+        let pat = |m: usize| -> Vec<u8> { let mut p = vec![b'e'; m]; p[0] = b'N'; p };
+        let run = |ac: &AhoCorasick, data: &[u8]| -> (Vec<M>, usize, u64) {
+            let found: Vec<M> = ac.stream_find_iter(data).map(|r| cv(r.unwrap())).collect();
+            let mut out = vec![];
+            ac.try_stream_replace_all(data, &mut out, &["<>"]).unwrap();
+            let sum = out.iter().fold(0u64, |a, &b| a.wrapping_mul(1099511628211).wrapping_add(b as u64));
+            (found, out.len(), sum)
+        };
+        let mk_data = |m: usize| -> Vec<u8> {
+            let p = pat(m);
+            let mut d = vec![b'-'; 1000];
+            d.extend_from_slice(&p);
+            d.extend_from_slice(&vec![b'-'; 70000]);
+            d.extend_from_slice(&p);
+            d.extend_from_slice(b"---");
+            d.extend_from_slice(&p);
+            d
+        };
+        let mut groups: Vec<(Option<usize>, Vec<usize>)> = vec![(None, vec![1, 3, 8192, 9000, 65535, 65536, 65537, 72000])];
+        for spare in [1usize, 2, 8] {
+            groups.push((Some(spare), vec![1, 2, 3, 4, 5, 9, 10, 11, 12, 18]));
+        }
+        for (spare, lens) in &groups {
+            let acs: Vec<(usize, AhoCorasick, std::sync::Arc<Vec<u8>>)> = lens.iter().filter_map(|&m| {
+                AhoCorasickBuilder::new().kind(Some(AhoCorasickKind::ContiguousNFA)).build([pat(m)]).ok().map(|a| (m, a, std::sync::Arc::new(mk_data(m))))
+            }).collect();
+            for (m2, ac2, d2) in &acs {
+                let sp = *spare;
+                let (a, d) = (ac2.clone(), d2.clone());
+                let base = std::thread::spawn(move || { aho_corasick::verif::set_buffer_spare_capacity(sp); catch_unwind(AssertUnwindSafe(|| run(&a, &d))).ok() }).join().ok().flatten();
+                for (m1, ac1, d1) in &acs {
+                    let (a1, dd1, a2, dd2) = (ac1.clone(), d1.clone(), ac2.clone(), d2.clone());
+                    let got = std::thread::spawn(move || {
+                        aho_corasick::verif::set_buffer_spare_capacity(sp);
+                        catch_unwind(AssertUnwindSafe(|| { let _ = run(&a1, &dd1); run(&a2, &dd2) })).ok()
+                    }).join().ok().flatten();
+                    rep.case(true);
+                    if got != base {
+                        let brief = |r: &Option<(Vec<M>, usize, u64)>| match r { None => "a panic".to_string(), Some((f, n, s)) => format!("{} matches {:?}.., replacement output of {} bytes (checksum {:x})", f.len(), &f[..f.len().min(3)], n, s) };
+                        rep.fail(Fail { key: format!("purity:stream-history:{:?}:{}:{}", spare, m1, m2), what: format!("stream search (one pattern of {} bytes, spare capacity {:?}) depends on an earlier stream search on the same thread (one pattern of {} bytes): fresh thread gives {}, after the earlier search {}", m2, spare, m1, brief(&base), brief(&got)), argv: vec!["purity".into()] });
+                    }
+                }
+            }
+        }
+        aho_corasick::verif::set_buffer_spare_capacity(None);
     }
     let lists = family("abc", false, seed).lists;
     let hays = gen::strings(b"abc", 0, 4);
